@@ -218,7 +218,7 @@ def gen_cases(tier, rng):
     elif tier == "widen":
         n_full, steps, n_mux, n_cyc, n_det = 120, 30, 20, 40, 24
     else:
-        n_full, steps, n_mux, n_cyc, n_det = 500, 40, 80, 160, 100
+        n_full, steps, n_mux, n_cyc, n_det = 500, 40, 80, 160, 60
     out = []
     for k in range(n_full):
         out.append({"mode": "full", "seed": rng.u64(), "steps": steps, "k": k})
